@@ -534,6 +534,56 @@ Lemma capabilities_unauthorized : forall tree r isect,
   wms_capabilities tree (Some r) isect = CAP_403.
 Proof. intros tree r isect H1 H2 H3. unfold wms_capabilities. destruct (r_kind r); congruence. Qed.
 
+(* the filtered document names no layer the unfiltered document does not name (nothing is invented) *)
+Lemma cap_child_in_all : forall perm w n, In n (cap_child perm w) -> In n (cap_all w).
+Proof.
+  intros perm. fix IH 1. intros w n H. destruct w as [m o maps infos|m this ch]; cbn [cap_child] in H; cbn [cap_all].
+  - destruct (perm m); [exact H|contradiction].
+  - destruct (perm m); [|contradiction].
+    assert (S : In n (m :: flat_map (cap_child perm) ch) -> In n (m :: flat_map cap_all ch)).
+    { intros [Hm|Hs]; [left; exact Hm|]. right. clear H. induction ch as [|c ch IHch]; [contradiction|].
+      cbn [flat_map] in Hs |- *. apply in_app_or in Hs. apply in_or_app.
+      destruct Hs as [Hc|Hr]; [left; exact (IH c n Hc)|right; exact (IHch Hr)]. }
+    destruct this as [t|]; [exact (S H)|].
+    destruct (flat_map (cap_child perm) ch) eqn:F; [contradiction|]. exact (S H).
+Qed.
+
+Lemma capabilities_subset_of_unfiltered : forall tree r isect names n,
+  wms_capabilities tree (Some r) isect = CAP_ok names -> In n names ->
+  exists all, wms_capabilities tree None isect = CAP_ok all /\ In n all.
+Proof.
+  intros tree r isect names n H Hin. exists (flat_map cap_all tree). split; [reflexivity|].
+  unfold wms_capabilities in H. destruct (r_kind r); try discriminate;
+    inversion H; subst; clear H; apply in_flat_map in Hin; destruct Hin as [w [Hw Hc]];
+    apply in_flat_map; exists w; (split; [exact Hw|]); first [exact Hc | exact (cap_child_in_all _ w n Hc)].
+Qed.
+
+(* a group that is not permitted hides its whole subtree, whatever the entries of its sub layers say *)
+Lemma cap_denied_group_hides_subtree : forall perm m this ch,
+  perm m = false -> cap_child perm (WGroup m this ch) = [].
+Proof. intros perm m this ch H. cbn [cap_child]. rewrite H. reflexivity. Qed.
+
+(* a group without sources of its own of which no sub layer is left is not listed either *)
+Lemma cap_empty_group_hidden : forall perm m ch,
+  (forall c, In c ch -> cap_child perm c = []) -> cap_child perm (WGroup m None ch) = [].
+Proof.
+  intros perm m ch H. cbn [cap_child]. destruct (perm m); [|reflexivity].
+  assert (E : flat_map (cap_child perm) ch = []).
+  { induction ch as [|c ch IHch]; [reflexivity|]. cbn [flat_map]. rewrite (H c (or_introl eq_refl)).
+    cbn [app]. apply IHch. intros c' Hc'. apply H. right. exact Hc'. }
+  rewrite E. reflexivity.
+Qed.
+
+(* completeness for a top level layer: permitted (truthy map entry, limits intersect its extent) => listed *)
+Lemma capabilities_permitted_toplevel_leaf_listed : forall tree r isect n o maps infos,
+  r_kind r = A_partial -> In (WLeaf n o maps infos) tree -> cap_permitted r isect n = true ->
+  exists names, wms_capabilities tree (Some r) isect = CAP_ok names /\ In n names.
+Proof.
+  intros tree r isect n o maps infos K Hin P. unfold wms_capabilities. rewrite K.
+  eexists. split; [reflexivity|]. apply in_flat_map. exists (WLeaf n o maps infos). split; [exact Hin|].
+  cbn [cap_child]. rewrite P. left. reflexivity.
+Qed.
+
 (* ------------------------------------------------------------------ tile services *)
 
 Lemma authorize_tile_ok_permitted : forall key n r lim,
@@ -618,6 +668,26 @@ Lemma wmts_fi_gate : forall n infos cb pt_in gs,
 Proof.
   intros n infos cb pt_in gs H Hg P Hne. unfold wmts_featureinfo. rewrite H.
   destruct infos; [congruence|]. destruct gs; [congruence|]. rewrite P. reflexivity.
+Qed.
+
+(* the other direction: no limit, or the query point inside the intersection of the limits => every info source *)
+Lemma wmts_fi_inside : forall n infos cb pt_in gs,
+  authorize_tile Ft_fi n cb = T_ok gs -> (gs = [] \/ pt_in gs = true) ->
+  wmts_featureinfo n infos cb pt_in = match infos with [] => FI_notqueryable | _ => FI_ok infos end.
+Proof.
+  intros n infos cb pt_in gs H Hg. unfold wmts_featureinfo. rewrite H. destruct infos as [|i infos]; [reflexivity|].
+  destruct Hg as [E|P]; [subst; reflexivity|]. destruct gs as [|g gs]; [reflexivity|]. rewrite P. reflexivity.
+Qed.
+
+(* the answer is decided by the query point alone (not by the tile that contains it) *)
+Lemma wmts_fi_iff_point_inside : forall n infos cb pt_in gs,
+  authorize_tile Ft_fi n cb = T_ok gs -> gs <> [] -> infos <> [] ->
+  (wmts_featureinfo n infos cb pt_in = FI_ok infos <-> pt_in gs = true).
+Proof.
+  intros n infos cb pt_in gs H Hg Hi. split.
+  - intro E. destruct (pt_in gs) eqn:P; [reflexivity|].
+    rewrite (wmts_fi_gate n infos cb pt_in gs H Hg P Hi) in E. inversion E as [E']. symmetry in E'. contradiction.
+  - intro P. rewrite (wmts_fi_inside n infos cb pt_in gs H (or_intror P)). destruct infos; [contradiction|reflexivity].
 Qed.
 
 Lemma empty_tile_limit_l :
@@ -934,6 +1004,9 @@ Example ex_tile_denied : tile_render 1 (Some ex_cb) (fun _ => true) (fun _ => tr
 Proof. reflexivity. Qed.
 Example ex_wmts_fi : wmts_featureinfo 3 [31] (Some ex_cb) (fun _ => false) = FI_ok [].
 Proof. reflexivity. Qed.
+Example ex_wmts_fi_in : wmts_featureinfo 3 [31] (Some ex_cb) (fun gs => list_eqb Z.eqb gs [7; 8]) = FI_ok [31]
+                         /\ authorize_tile Ft_fi 3 (Some ex_cb) = T_ok [7; 8].
+Proof. split; reflexivity. Qed.
 Example ex_tile_both_limits : authorize_tile Ft_tile 3 (Some ex_cb) = T_ok [7; 8].
 Proof. reflexivity. Qed.
 
@@ -962,3 +1035,10 @@ Example ex_caps_group :
     (fun _ _ => true) = CAP_ok [2; 4].
 Proof. reflexivity. Qed.
 
+(* non-vacuity of cap_denied_group_hides_subtree / cap_empty_group_hidden / capabilities_subset_of_unfiltered *)
+Example ex_caps_denied_group :
+  cap_child (fun n => negb (n =? 2)) (WGroup 2 None [WLeaf 4 false [41] []; WLeaf 5 false [51] []]) = []
+  /\ cap_child (fun n => n =? 2) (WGroup 2 None [WLeaf 4 false [41] []; WLeaf 5 false [51] []]) = []
+  /\ cap_child (fun n => negb (n =? 5)) (WGroup 2 None [WLeaf 4 false [41] []; WLeaf 5 false [51] []]) = [2; 4]
+  /\ cap_all (WGroup 2 None [WLeaf 4 false [41] []; WLeaf 5 false [51] []]) = [2; 4; 5].
+Proof. repeat split; reflexivity. Qed.
